@@ -43,6 +43,9 @@ def plan(tier, seed):
         pass
     jobs.append(dict(name="C07-lemma-append-dtype-pairs", kind="pyfunc", timeout=600,
                      payload=dict(func="vf.pyshim.lemma_append:append_dtype_pairs")))
+    # rows already in the dataset read back as written after an append widened the codes of a categorical column
+    from . import pageloop
+    jobs += [j for j in pageloop.page_jobs("C07", tier) if "selfmade=1" in j["name"]]
     extra = dict(
         explanation="Single file: the real write_simple append branch on a symbolic file (data length, old/new footer "
                     "length, row-group sizes symbolic): the old length field is read from its place, every write "
